@@ -70,6 +70,15 @@ def format_rows(fmt):
     return rows
 
 
+def last_named_field(field_names, rule):
+    """Index of the last field (in declaration order) whose name occurs as a word in ``rule``; the last field if none."""
+    import re
+
+    named = [index for index, name in enumerate(field_names)
+             if re.search(r"(?<![A-Za-z0-9_])%s(?![A-Za-z0-9_])" % re.escape(name), rule)]
+    return max(named) if named else len(field_names) - 1
+
+
 def field_row(field):
     return ["F", field["name"], field.get("example", ""), "X" if field["empty"] else "", field["length"],
             field["type"], field["rule"]]
@@ -221,10 +230,15 @@ def _dec_cells(draw, field, fmt, n):
     places = max([max(0, -d.as_tuple().exponent) for d in finite] + [0])
     step = Decimal(1).scaleb(-(places + 1))
     candidates = []
-    for v in finite:
-        candidates += [v - step, v, v + step, v - 1, v + 1]
-    for a, b in zip(finite, finite[1:]):
-        candidates.append((a + b) / 2)
+    import decimal
+
+    with decimal.localcontext() as context:
+        context.prec = 120  # exact, whatever the number of digits
+        tiny = Decimal(1).scaleb(-36)  # nearer to a limit than any fixed number of significant digits resolves
+        for v in finite:
+            candidates += [v - step, v, v + step, v - 1, v + 1, v - tiny, v + tiny]
+        for a, b in zip(finite, finite[1:]):
+            candidates.append((a + b) / 2)
     candidates += [Decimal(0), Decimal("1234567.891"), Decimal("-1234.5"), Decimal("1000"), Decimal("0.001")]
     picked = draw(st.lists(st.sampled_from(candidates), min_size=n, max_size=n))
     cells = []
@@ -256,7 +270,9 @@ def _dec_cells(draw, field, fmt, n):
 
 _WORDS = ["red", "green", "blue", "Red", "RED", "a", "b", "ab", "abc", "x1", "_y", "änderung", "Ä", "no", "yes"]
 _QUOTED = ["two words", "with, comma", "ünï cödé", "semi;colon", "a", "1st", "-", "#", "tab\there", "x y z", "it's",
-           "cafe\u0301", "\u212a"]  # a decomposed accent and the Kelvin sign: equal to "café" / "K" only after normalisation
+           "cafe\u0301", "\u212a",
+           # values that begin or end with the quote character the rule does not use around them
+           "5'", '12"', "'n'", '"x"', "'", '"']  # a decomposed accent and the Kelvin sign: equal to "café" / "K" only after normalisation
 _NUMBERS = ["1", "2", "10", "42", "1.5", "0"]
 
 
